@@ -13,6 +13,7 @@
      "t1.state"     T1 key distinguishes engine states with equal graph ids
      "t2.view"      owner scope + agent        "t2.k"      k_retrieval
      "t2.day"       logical day of ctx.now      "t2.graph"  label map of the active graphs
+     "t1.perf"      the EFFECTIVE perf caps (perf.t1.caps.* only while perf.enabled), not the configured ones
      "t2.index"     identity/generation of the memory index (not only its add counter)
      "tl.view" "tl.k" "tl.day" "tl.graph" "tl.mem"   the same for the turn-level key (version, text)
    Dependencies that every key covers already (query text, T1 labels, add counter, version) are always in. *)
@@ -20,8 +21,8 @@ EXTENDS Integers, Sequences, FiniteSets, TLC, Json
 
 CONSTANTS S, Agents, Texts, KeyHas, MaxAdds, MaxVer, MaxLen, Episodes, InitEps
 
-VARIABLES gw, gn, eps, adds, gen, ver, kill, k, scope, day, c1, c2, cT, obs, h
-vars == <<gw, gn, eps, adds, gen, ver, kill, k, scope, day, c1, c2, cT, obs, h>>
+VARIABLES gw, gn, eps, adds, gen, ver, kill, k, scope, day, perf, c1, c2, cT, obs, h
+vars == <<gw, gn, eps, adds, gen, ver, kill, k, scope, day, perf, c1, c2, cT, obs, h>>
 
 Has(x) == x \in KeyHas
 Opt(x, v) == IF Has(x) THEN v ELSE 0
@@ -29,7 +30,7 @@ NoObs == [t1 |-> [hit |-> FALSE, cause |-> {}], t2 |-> [hit |-> FALSE, cause |->
 
 Init == /\ gw = [s \in S |-> 0] /\ gn = [s \in S |-> 0]
         /\ eps = [s \in S |-> InitEps] /\ adds = [s \in S |-> Cardinality(InitEps)] /\ gen = [s \in S |-> 0]
-        /\ ver = [s \in S |-> 0] /\ kill = FALSE /\ k = 2 /\ scope = "any" /\ day = 0
+        /\ ver = [s \in S |-> 0] /\ kill = FALSE /\ k = 2 /\ scope = "any" /\ day = 0 /\ perf = 0
         /\ c1 = <<>> /\ c2 = <<>> /\ cT = [s \in S |-> <<>>]
         /\ obs = NoObs /\ h = <<>>
 
@@ -41,16 +42,18 @@ Store(c, key, val) == Append(SelectSeq(c, LAMBDA e : e[1] # key), <<key, val>>)
 Diff(a, b) == {f \in DOMAIN a : a[f] # b[f]}
 
 \* true dependencies
-F1(s, t) == [gw |-> gw[s], gn |-> gn[s], text |-> t]
+\* cap: the effective T1 frontier cap (configured value while the perf master switch is on, none while it is off)
+F1(s, t) == [gw |-> gw[s], gn |-> gn[s], text |-> t, cap |-> perf]
 View(a) == IF scope = "agent" THEN a ELSE "any"
 F2(s, a, t, r1) == [text |-> t, r1 |-> r1, mem |-> eps[s], view |-> View(a), k |-> k, day |-> day, graph |-> gn[s]]
 
 \* keys as the code builds them
-K1(s, t) == <<IF Has("t1.content") THEN <<gw[s], gn[s]>> ELSE <<gn[s]>>, Opt("t1.state", s), t>>
+K1(s, t) == <<IF Has("t1.content") THEN <<gw[s], gn[s]>> ELSE <<gn[s]>>, Opt("t1.state", s), Opt("t1.perf", perf), t>>
 K2(s, a, t, r1) == <<t, r1, adds[s], Opt("t2.index", <<s, gen[s]>>), Opt("t2.view", View(a)), Opt("t2.k", k),
                      Opt("t2.day", day), Opt("t2.graph", gn[s])>>
-KT(s, a, t) == <<ver[s], t, Opt("tl.view", View(a)), Opt("tl.k", k), Opt("tl.day", day),
-                 Opt("tl.graph", <<gw[s], gn[s]>>), Opt("tl.mem", <<adds[s], gen[s]>>)>>
+\* the turn-level key is built after T1 and carries the labels T1 touched (r1: graph content and effective cap)
+KT(s, a, t, r1) == <<ver[s], t, Opt("tl.view", View(a)), Opt("tl.k", k), Opt("tl.day", day),
+                 Opt("tl.graph", <<gw[s], gn[s], r1.cap>>), Opt("tl.mem", <<adds[s], gen[s]>>)>>
 
 Turn(s, a, t) ==
     LET f1 == F1(s, t)
@@ -58,12 +61,12 @@ Turn(s, a, t) ==
         r1 == IF l1.hit THEN l1.val ELSE f1
         o1 == [hit |-> l1.hit, cause |-> IF l1.hit THEN Diff(l1.val, f1) ELSE {}]
         f2 == F2(s, a, t, r1)
-        lT == Lookup(cT[s], KT(s, a, t))
+        lT == Lookup(cT[s], KT(s, a, t, r1))
         l2 == Lookup(c2, K2(s, a, t, r1))
         r2 == IF lT.hit THEN lT.val ELSE IF l2.hit THEN l2.val ELSE f2
         oT == [hit |-> lT.hit, cause |-> IF lT.hit THEN Diff(lT.val, f2) ELSE {}]
         o2 == [hit |-> ~lT.hit /\ l2.hit, cause |-> IF ~lT.hit /\ l2.hit THEN Diff(l2.val, f2) ELSE {}]
-        cT1 == IF lT.hit THEN cT[s] ELSE Store(cT[s], KT(s, a, t), r2)
+        cT1 == IF lT.hit THEN cT[s] ELSE Store(cT[s], KT(s, a, t, r1), r2)
     IN /\ c1' = IF l1.hit THEN c1 ELSE Store(c1, K1(s, t), f1)
        /\ c2' = IF lT.hit \/ l2.hit THEN c2 ELSE Store(c2, K2(s, a, t, r1), f2)
        /\ IF kill THEN /\ cT' = [cT EXCEPT ![s] = cT1] /\ ver' = ver
@@ -71,30 +74,31 @@ Turn(s, a, t) ==
                        /\ ver' = [ver EXCEPT ![s] = ver[s] + 1]
        /\ obs' = [t1 |-> o1, t2 |-> o2, tl |-> oT]
        /\ h' = Append(h, [ev |-> "turn", s |-> s, a |-> a, t |-> t, obs |-> obs'])
-       /\ UNCHANGED <<gw, gn, eps, adds, gen, kill, k, scope, day>>
+       /\ UNCHANGED <<gw, gn, eps, adds, gen, kill, k, scope, day, perf>>
 
 Env(name, s) == /\ obs' = NoObs /\ h' = Append(h, [ev |-> name, s |-> s])
                 /\ UNCHANGED <<c1, c2, cT, ver>>
 
-EditWeight(s) == gw' = [gw EXCEPT ![s] = 1 - gw[s]] /\ Env("edit_weight", s) /\ UNCHANGED <<gn, eps, adds, gen, kill, k, scope, day>>
-AddNode(s) == gn[s] = 0 /\ gn' = [gn EXCEPT ![s] = 1] /\ Env("add_node", s) /\ UNCHANGED <<gw, eps, adds, gen, kill, k, scope, day>>
+EditWeight(s) == gw' = [gw EXCEPT ![s] = 1 - gw[s]] /\ Env("edit_weight", s) /\ UNCHANGED <<gn, eps, adds, gen, kill, k, scope, day, perf>>
+AddNode(s) == gn[s] = 0 /\ gn' = [gn EXCEPT ![s] = 1] /\ Env("add_node", s) /\ UNCHANGED <<gw, eps, adds, gen, kill, k, scope, day, perf>>
 AddEpisode(s, e) == /\ e \notin eps[s] /\ adds[s] < MaxAdds
                     /\ eps' = [eps EXCEPT ![s] = eps[s] \cup {e}] /\ adds' = [adds EXCEPT ![s] = adds[s] + 1]
                     /\ obs' = NoObs /\ h' = Append(h, [ev |-> "add_episode", s |-> s, e |-> e])
-                    /\ UNCHANGED <<gw, gn, gen, ver, kill, k, scope, day, c1, c2, cT>>
+                    /\ UNCHANGED <<gw, gn, gen, ver, kill, k, scope, day, perf, c1, c2, cT>>
 ClearIndex(s) == /\ eps[s] # {} /\ gen[s] < 1
                  /\ eps' = [eps EXCEPT ![s] = {}] /\ adds' = [adds EXCEPT ![s] = 0] /\ gen' = [gen EXCEPT ![s] = gen[s] + 1]
-                 /\ Env("clear_index", s) /\ UNCHANGED <<gw, gn, kill, k, scope, day>>
-ToggleKill == kill' = ~kill /\ Env("toggle_kill", 0) /\ UNCHANGED <<gw, gn, eps, adds, gen, k, scope, day>>
-SetK == k' = 3 - k /\ Env("set_k", 0) /\ UNCHANGED <<gw, gn, eps, adds, gen, kill, scope, day>>
-SetScope == scope' = (IF scope = "any" THEN "agent" ELSE "any") /\ Env("set_scope", 0) /\ UNCHANGED <<gw, gn, eps, adds, gen, kill, k, day>>
-NextDay == day = 0 /\ day' = 1 /\ Env("next_day", 0) /\ UNCHANGED <<gw, gn, eps, adds, gen, kill, k, scope>>
+                 /\ Env("clear_index", s) /\ UNCHANGED <<gw, gn, kill, k, scope, day, perf>>
+ToggleKill == kill' = ~kill /\ Env("toggle_kill", 0) /\ UNCHANGED <<gw, gn, eps, adds, gen, k, scope, day, perf>>
+SetK == k' = 3 - k /\ Env("set_k", 0) /\ UNCHANGED <<gw, gn, eps, adds, gen, kill, scope, day, perf>>
+SetScope == scope' = (IF scope = "any" THEN "agent" ELSE "any") /\ Env("set_scope", 0) /\ UNCHANGED <<gw, gn, eps, adds, gen, kill, k, day, perf>>
+TogglePerf == perf' = 1 - perf /\ Env("toggle_perf", 0) /\ UNCHANGED <<gw, gn, eps, adds, gen, kill, k, scope, day>>
+NextDay == day = 0 /\ day' = 1 /\ Env("next_day", 0) /\ UNCHANGED <<gw, gn, eps, adds, gen, kill, k, scope, perf>>
 
 Next == /\ Len(h) < MaxLen
         /\ \/ \E s \in S, a \in Agents, t \in Texts : ver[s] < MaxVer /\ Turn(s, a, t)
            \/ \E s \in S : EditWeight(s) \/ AddNode(s) \/ ClearIndex(s)
            \/ \E s \in S, e \in Episodes : AddEpisode(s, e)
-           \/ ToggleKill \/ SetK \/ SetScope \/ NextDay
+           \/ ToggleKill \/ SetK \/ SetScope \/ NextDay \/ TogglePerf
 Spec == Init /\ [][Next]_vars
 
 -----------------------------------------------------------------------------
@@ -103,7 +107,7 @@ HitEqualsFresh == ~Stale
 \* with the full key set no stale hit exists; with the keys of the current code the stale hits are
 \* exactly those caused by components missing from KeyHas (checked by the harness per witness)
 
-View_ == <<gw, gn, eps, adds, gen, ver, kill, k, scope, day, c1, c2, cT, obs>>
+View_ == <<gw, gn, eps, adds, gen, ver, kill, k, scope, day, perf, c1, c2, cT, obs>>
 EmitStale == Stale => PrintT(<<"T", ToJson([h |-> h])>>)
 EmitAtEnd == (Len(h) = MaxLen) => PrintT(<<"T", ToJson([h |-> h])>>)
 =============================================================================
